@@ -210,9 +210,7 @@ package netconf
 //@   requires d.Channel.PromptSearchDepth >= 0 && cr != nil && !closed(cr) && cr != d.Channel.Q.depthChan
 //@   chaninv cr v => v != nil && RI(d.Channel.Q)
 //@   modifies rd, d.Channel.Q.queue, d.Channel.Q.depth, chan(d.Channel.Q.depthChan), chan(cr), quiet, alloc()
-// (not claimed: "at most one result" - when the hello read fails with an error other than the deadline the goroutine sends
-// the error and then, not having returned, a second result nobody receives: it blocks forever. A goroutine leak on a
-// failed open, outside the twenty statements; recorded as an observation in DESIGN.md I.6)
+//@   ensures [C05 C07] #the-reader-of-the-hello-reports-at-most-once-and-then-ends chlen(cr) <= old(chlen(cr)) + 1
 // the hello is parsed with regular expressions (uninterpreted): the clauses fix what is done with their matches. Indexing a
 // sub-match list relies on the number of groups of the pattern (one each), which is regex knowledge: `nosafety`.
 //@ func (*Driver).processServerCapabilities [C09]
